@@ -115,6 +115,8 @@ def run(ctx):
         for _ in range(200):
             desc = execlib.gen_layout(rng, broken_p=0.25)
             n = rng.choice([1, 3, 10, rng.randrange(1, maxlen + 1)])
+            if rng.random() < 0.12 and not desc.get('omit'):
+                desc = execlib.with_prelude(rng, desc, gen_history)
             batch.append((desc, execlib.with_resets(rng, gen_history(rng, desc, n, 0.5))))
         execlib.check_histories(ctx, rep, batch, 'invalid-heavy history', per_step=True, classify=classify)
         done += len(batch)
